@@ -175,7 +175,7 @@ func aliasAny(s string) string {
 // the value the traversal descends into on a path that comes from the forcing call.
 func flowForced(c *core.Ctx, r *core.Reporter) {
 	for _, fn := range c.LibFuncs() {
-		if fn.Parent() != nil || fn.Pkg == nil || len(fn.Name()) < 7 || fn.Name()[:7] != "dethunk" {
+		if fn.Parent() != nil || fn.Pkg == nil || len(core.N(fn)) < 7 || core.N(fn)[:7] != "dethunk" {
 			continue
 		}
 		var tests []*ssa.TypeAssert
@@ -189,7 +189,7 @@ func flowForced(c *core.Ctx, r *core.Reporter) {
 		if len(tests) == 0 {
 			continue
 		}
-		key := fn.Name() + "/descends-into-forced"
+		key := core.N(fn) + "/descends-into-forced"
 		bad := false
 		for _, t := range tests {
 			// the forcing call: a call whose callee value is the asserted function
@@ -229,7 +229,7 @@ func flowForced(c *core.Ctx, r *core.Reporter) {
 				}
 				if reach && !bad {
 					bad = true
-					r.Bad(key, ta.Pos(), "%s tests a value for being a thunk, forces it, and then descends into the value it tested rather than into the forced result: an object or list produced by a thunk is never walked, so raw thunks stay in Result.Data (also at non-null positions) and errors of deferred fields under it are never recorded", fn.Name())
+					r.Bad(key, ta.Pos(), "%s tests a value for being a thunk, forces it, and then descends into the value it tested rather than into the forced result: an object or list produced by a thunk is never walked, so raw thunks stay in Result.Data (also at non-null positions) and errors of deferred fields under it are never recorded", core.N(fn))
 				}
 			})
 		}
